@@ -442,11 +442,11 @@ Qed.
 Lemma good_outc_b o : good_outc o -> um_no_panic (Some o) = true.
 Proof. unfold good_outc, um_no_panic. destruct (oc_um o); congruence. Qed.
 
-Lemma spec_ok_good_v i o :
+Lemma spec_cons_good_v i o :
   (i_entry i = EVerify \/ i_entry i = EVerifyBlob) ->
-  good_v (policy_selected i) o -> spec_ok i o = true.
+  good_v (policy_selected i) o -> spec_cons i o = true.
 Proof.
-  intros Hent H. destruct H as [oc H1 H2 H3 H4 | oc e H1 H2 H3 | e Hs]; unfold spec_ok; cbn [forallb].
+  intros Hent H. destruct H as [oc H1 H2 H3 H4 | oc e H1 H2 H3 | e Hs]; unfold spec_cons; cbn [forallb].
   - rewrite (good_outc_b _ H4). cbn.
     destruct Hent as [-> | ->]; rewrite H1, H2; cbn; destruct (oc_level oc); cbn; congruence.
   - rewrite (good_outc_b _ H3). cbn.
@@ -455,36 +455,36 @@ Proof.
   - cbn. destruct Hent as [-> | ->]; rewrite Hs; reflexivity.
 Qed.
 
-Lemma spec_ok_good_n i o :
-  (i_entry i = ENVerify \/ i_entry i = ENVerifyBlob) -> good_n o -> spec_ok i o = true.
+Lemma spec_cons_good_n i o :
+  (i_entry i = ENVerify \/ i_entry i = ENVerifyBlob) -> good_n o -> spec_cons i o = true.
 Proof.
-  intros Hent H. destruct H as [f oc H1 H2 | e]; unfold spec_ok; cbn [forallb].
+  intros Hent H. destruct H as [f oc H1 H2 | e]; unfold spec_cons; cbn [forallb].
   - rewrite (good_outc_b _ H2). cbn. destruct Hent as [-> | ->]; rewrite H1; reflexivity.
   - cbn. destruct Hent as [-> | ->]; reflexivity.
 Qed.
 
-Theorem model_spec_ok i : wf i = true -> spec_ok i (model i) = true.
+Theorem model_spec_cons i : wf i = true -> spec_cons i (model i) = true.
 Proof.
   intros Hwf. destruct (wf_parts i Hwf) as (Hpm & Hsc & Hit & Hi & Hso & Hsb).
   unfold model. destruct (uses_lib i && construct_fails i); [reflexivity|].
   destruct (i_entry i) eqn:Hent.
-  - apply spec_ok_good_v; [now left|]. rewrite (policy_selected_verify i Hent).
+  - apply spec_cons_good_v; [now left|]. rewrite (policy_selected_verify i Hent).
     apply verify_oci_good; assumption.
-  - apply spec_ok_good_v; [now right|]. rewrite (policy_selected_blob i Hent).
+  - apply spec_cons_good_v; [now right|]. rewrite (policy_selected_blob i Hent).
     apply verify_blob_good; assumption.
-  - destruct (skip_verify_shape (i_v i) Hso) as [[e E]|[E|[nm [Hnm E]]]]; rewrite E; unfold spec_ok; rewrite Hent; cbn;
+  - destruct (skip_verify_shape (i_v i) Hso) as [[e E]|[E|[nm [Hnm E]]]]; rewrite E; unfold spec_cons; rewrite Hent; cbn;
       try reflexivity.
     destruct nm; cbn; congruence.
-  - apply spec_ok_good_n; [now left|]. apply nverify_good; assumption.
-  - apply spec_ok_good_n; [now right|]. apply nverify_blob_good; assumption.
-  - unfold spec_ok. rewrite Hent. cbn.
+  - apply spec_cons_good_n; [now left|]. apply nverify_good; assumption.
+  - apply spec_cons_good_n; [now right|]. apply nverify_blob_good; assumption.
+  - unfold spec_cons. rewrite Hent. cbn.
     destruct (user_metadata _ _ _) eqn:Eu; try reflexivity.
     exfalso. eapply user_metadata_no_panic; eassumption.
 Qed.
 
 (* the oracle rejects exactly what the declarative statements exclude: a
    panicking observation never passes *)
-Lemma spec_ok_no_panic i o : spec_ok i o = true -> returns_normally o.
+Lemma spec_cons_no_panic i o : spec_cons i o = true -> returns_normally o.
 Proof.
   destruct o as [| |f l outs err]; cbn; try discriminate.
   - intros _. split; [discriminate|]. intros; discriminate.
@@ -494,17 +494,172 @@ Proof.
     destruct (oc_um oc); congruence.
 Qed.
 
-Lemma spec_ok_no_nil i f l outs e : spec_ok i (ORet f l outs e) = true -> ~ In None outs.
+Lemma spec_cons_no_nil i f l outs e : spec_cons i (ORet f l outs e) = true -> ~ In None outs.
 Proof.
   cbn. intros H Hin. apply andb_prop in H as [H _]. apply andb_prop in H as [_ H].
   rewrite forallb_forall in H. specialize (H _ Hin). discriminate H.
 Qed.
 
+(* ---------- every outcome carries the level of the statement of ITS entry point ---------- *)
+Lemma verify_oci_level v sc l f lv outs e :
+  v_oci v = Some (SelLevel l) -> verify_oci v sc = ORet f lv outs e ->
+  forallb (has_level (name_of l)) outs = true /\ (is_skip l = true -> e = None).
+Proof.
+  intros H. unfold verify_oci. rewrite H.
+  destruct (is_skip l) eqn:Es.
+  { intros E; inversion E; subst. split; [|reflexivity]. destruct l; try discriminate; reflexivity. }
+  destruct (process_signature l (v_pm v) sc) as [|[e0|] c rs]; try discriminate.
+  - intros E; inversion E; subst. split; [|discriminate]. cbn. destruct l; reflexivity.
+  - destruct (negb c); try discriminate.
+    destruct (negb (s_payload_ok sc)).
+    + intros E; inversion E; subst. split; [|discriminate]. cbn. destruct l; reflexivity.
+    + intros E; inversion E; subst. split; [|discriminate]. cbn. destruct l; reflexivity.
+Qed.
+
+Lemma verify_blob_level v sc l f lv outs e :
+  v_blob v = Some (SelLevel l) -> verify_blob v sc = ORet f lv outs e ->
+  forallb (has_level (name_of l)) outs = true /\ (is_skip l = true -> e = None).
+Proof.
+  intros H. unfold verify_blob. rewrite H.
+  destruct (is_skip l) eqn:Es.
+  { intros E; inversion E; subst. split; [|reflexivity]. destruct l; try discriminate; reflexivity. }
+  destruct (process_signature l (v_pm v) sc) as [|[e0|] c rs]; try discriminate.
+  - intros E; inversion E; subst. split; [|discriminate]. cbn. destruct l; reflexivity.
+  - destruct (negb c); try discriminate.
+    destruct (negb (s_payload_ok sc)).
+    + intros E; inversion E; subst. split; [|discriminate]. cbn. destruct l; reflexivity.
+    + destruct (s_descgen_err sc); intros E; inversion E; subst; (split; [|discriminate]); cbn; destruct l; reflexivity.
+Qed.
+
+Lemma skip_verify_level v l :
+  v_oci v = Some (SelLevel l) -> skip_verify v = ORet (is_skip l) (Some (name_of l)) [] None.
+Proof. intros H. unfold skip_verify. rewrite H. destruct l; reflexivity. Qed.
+
+Lemma call_verify_lib_level v sc l o e :
+  v_oci v = Some (SelLevel l) -> call_verify VLib v sc = VRes (Some o) e ->
+  has_level (name_of l) (Some o) = true.
+Proof.
+  intros H. cbn [call_verify].
+  destruct (verify_oci v sc) as [| |f lv outs e'] eqn:E; try discriminate.
+  destruct (verify_oci_level _ _ _ _ _ _ _ H E) as [Hl _].
+  destruct outs as [|x outs]; try discriminate.
+  intros E'; inversion E'; subst. cbn in Hl. apply andb_prop in Hl as [Hl _]. exact Hl.
+Qed.
+
+Lemma nloop_lib_level v l : v_oci v = Some (SelLevel l) ->
+  forall k any items o, nloop VLib v k any items = LSuccess (Some o) -> has_level (name_of l) (Some o) = true.
+Proof.
+  intros H. induction k as [|k IH]; intros any items o; cbn [nloop]; try discriminate.
+  destruct items as [|[|sc] rest]; try discriminate.
+  destruct (call_verify VLib v sc) as [|[o'|] [e|]] eqn:E; try discriminate.
+  - apply IH.
+  - intros E'; inversion E'; subst. exact (call_verify_lib_level _ _ _ _ _ H E).
+Qed.
+
+Lemma nverify_lib_level v n l f lv outs e :
+  v_oci v = Some (SelLevel l) -> nverify VLib v n = ORet f lv outs e ->
+  forallb (has_level (name_of l)) outs = true.
+Proof.
+  intros H. unfold nverify.
+  destruct (n_repo_nil n); [intros E; inversion E; reflexivity|].
+  destruct (n_max n <=? 0)%Z; [intros E; inversion E; reflexivity|].
+  rewrite (skip_verify_level _ _ H).
+  destruct (is_skip l) eqn:Es.
+  { intros E; inversion E; subst. destruct l; try discriminate; reflexivity. }
+  destruct (n_ref n); try (intros E; inversion E; reflexivity).
+  destruct (n_resolve_err n); [intros E; inversion E; reflexivity|].
+  destruct (n_digest_mismatch n); [intros E; inversion E; reflexivity|].
+  destruct (n_list_err n); [intros E; inversion E; reflexivity|].
+  destruct (nloop VLib v (Z.to_nat (n_max n)) false (n_items n)) as [|e0|[o|]| |[|]] eqn:El;
+    try discriminate; try (intros E; inversion E; reflexivity).
+  intros E; inversion E; subst. cbn [forallb]. rewrite (nloop_lib_level _ _ H _ _ _ _ El). reflexivity.
+Qed.
+
+Lemma nverify_blob_lib_level v b sc l f lv outs e :
+  v_blob v = Some (SelLevel l) -> nverify_blob VLib v b sc = ORet f lv outs e ->
+  forallb (has_level (name_of l)) outs = true.
+Proof.
+  intros H. unfold nverify_blob.
+  destruct (b_reader_nil b); [intros E; inversion E; reflexivity|].
+  assert (Hmain : match call_verify_blob VLib v sc with
+          | VPanic => OPanic
+          | VRes _ (Some e0) => ORet false None [] (Some (coarse e0))
+          | VRes None None => OPanic
+          | VRes (Some o) None =>
+              if negb (oc_content o) then ORet false None [Some o] None
+              else if negb (blob_payload_ok VLib sc) then ORet false None [] (Some XOther)
+              else ORet true None [Some o] None
+          end = ORet f lv outs e -> forallb (has_level (name_of l)) outs = true).
+  { cbn [call_verify_blob].
+    destruct (verify_blob v sc) as [| |f' lv' outs' e'] eqn:Ev; try discriminate.
+    destruct (verify_blob_level _ _ _ _ _ _ _ H Ev) as [Hl _].
+    destruct outs' as [|x outs'].
+    - destruct e'; try discriminate. intros E; inversion E; reflexivity.
+    - cbn in Hl. apply andb_prop in Hl as [Hl _].
+      destruct x as [o|]; destruct e'; try discriminate; try (intros E; inversion E; reflexivity).
+      destruct (negb (oc_content o)).
+      + intros E; inversion E; subst. cbn [forallb]. rewrite Hl. reflexivity.
+      + destruct (negb (blob_payload_ok VLib sc)); intros E; inversion E; subst; try reflexivity.
+        cbn [forallb]. rewrite Hl. reflexivity. }
+  destruct (s_sig sc); [intros E; inversion E; reflexivity| |];
+    (destruct (b_ctype_bad b); [intros E; inversion E; reflexivity|];
+     destruct (b_stype_bad b); [intros E; inversion E; reflexivity|]; exact Hmain).
+Qed.
+
+Theorem model_level_ok i f lv outs e :
+  model i = ORet f lv outs e -> level_ok i lv outs e = true.
+Proof.
+  unfold model, level_ok, sel_level.
+  destruct (uses_lib i) eqn:Eu; cbn [negb andb]; [|reflexivity].
+  destruct (construct_fails i); [discriminate|].
+  destruct (i_entry i) eqn:Hent.
+  - destruct (v_oci (i_v i)) as [[| |l]|] eqn:Ho; try reflexivity. intros E.
+    destruct (verify_oci_level _ _ _ _ _ _ _ Ho E) as [H1 H2]. rewrite H1. cbn.
+    destruct (is_skip l); [rewrite (H2 eq_refl)|]; reflexivity.
+  - destruct (v_blob (i_v i)) as [[| |l]|] eqn:Ho; try reflexivity. intros E.
+    destruct (verify_blob_level _ _ _ _ _ _ _ Ho E) as [H1 H2]. rewrite H1. cbn.
+    destruct (is_skip l); [rewrite (H2 eq_refl)|]; reflexivity.
+  - destruct (v_oci (i_v i)) as [[| |l]|] eqn:Ho; try reflexivity.
+    rewrite (skip_verify_level _ _ Ho). intros E; inversion E; subst. cbn.
+    destruct l; reflexivity.
+  - destruct (v_oci (i_v i)) as [[| |l]|] eqn:Ho; try reflexivity. intros E.
+    unfold uses_lib in Eu. rewrite Hent in Eu. destruct (i_impl i); try discriminate.
+    rewrite (nverify_lib_level _ _ _ _ _ _ _ Ho E). reflexivity.
+  - destruct (v_blob (i_v i)) as [[| |l]|] eqn:Ho; try reflexivity. intros E.
+    unfold uses_lib in Eu. rewrite Hent in Eu. destruct (i_impl i); try discriminate.
+    rewrite (nverify_blob_lib_level _ _ _ _ _ _ _ _ Ho E). reflexivity.
+  - reflexivity.
+Qed.
+
+Theorem model_spec_ok i : wf i = true -> spec_ok i (model i) = true.
+Proof.
+  intros Hwf. unfold spec_ok. rewrite (model_spec_cons i Hwf). cbn.
+  destruct (model i) as [| |f lv outs e] eqn:E; try reflexivity.
+  exact (model_level_ok i f lv outs e E).
+Qed.
+
+Lemma spec_ok_cons i o : spec_ok i o = true -> spec_cons i o = true.
+Proof. unfold spec_ok. intros H. apply andb_prop in H as [H _]. exact H. Qed.
+
+Lemma spec_ok_no_panic i o : spec_ok i o = true -> returns_normally o.
+Proof. intros H. exact (spec_cons_no_panic i o (spec_ok_cons i o H)). Qed.
+
 (* no nil outcome pointer is ever handed back *)
 Theorem no_nil_outcomes i f l outs e :
   wf i = true -> model i = ORet f l outs e -> ~ In None outs.
 Proof.
-  intros Hwf Hm. apply (spec_ok_no_nil i f l outs e). rewrite <- Hm. apply model_spec_ok; assumption.
+  intros Hwf Hm. apply (spec_cons_no_nil i f l outs e). rewrite <- Hm. apply model_spec_cons; assumption.
+Qed.
+
+(* declarative reading of [level_ok] *)
+Theorem outcome_levels i f lv outs e l o :
+  model i = ORet f lv outs e -> sel_level i = Some l -> In (Some o) outs -> oc_level o = Some (name_of l).
+Proof.
+  intros Hm Hs Hin. pose proof (model_level_ok i f lv outs e Hm) as H.
+  unfold level_ok in H. rewrite Hs in H. apply andb_prop in H as [H _].
+  rewrite forallb_forall in H. specialize (H _ Hin). cbn in H.
+  destruct (oc_level o) as [n|]; cbn in H; [|discriminate].
+  apply lname_eqb_eq in H. now subst.
 Qed.
 
 (* ---------- skip-level statements produce a usable outcome ---------- *)
